@@ -202,6 +202,18 @@ def rows(ck):
     return kept, tag
 
 
+def must_refuse(cfg):
+    """Support matrix as documented (doc/source/theory and the solver's own refusal messages):
+    a configuration in one of these classes has no implementation and has to be refused."""
+    if cfg["qed"] > 0 and cfg["method"] != "iterate-exact":
+        return "QED evolution is only implemented for the iterate-exact method"
+    if cfg["pt"] == "pol+tl":
+        return "polarized time-like evolution is not implemented"
+    if cfg["pt"] in ("pol", "tl") and cfg["qcd"] >= 4:
+        return f"{cfg['pt']} evolution beyond NNLO is not available"
+    return None
+
+
 def zero_violation(cfg, key):
     """Is an identically-zero block at this site a silent zero-fill of a requested ingredient?"""
     name, k = key.split("[")
@@ -266,6 +278,11 @@ def run(ck):
                 ck.violation(f"C04/{res['etype']}@{res['site']}", f"unrelated exception {res['etype']}: {res['msg'][:120]}", dict(cfg=cfg, res=res))
             continue
         outcomes["ok"] = outcomes.get("ok", 0) + 1
+        why = must_refuse(cfg)
+        if why:
+            cls = "qed-method" if cfg["qed"] > 0 and cfg["method"] != "iterate-exact" else cfg["pt"]
+            ck.violation(f"C04/accepted-unsupported/{cls}", f"configuration was solved although {why} (order {cfg['qcd']},{cfg['qed']}, method {cfg['method']}, {brief['pt']})", dict(cfg=cfg, res=res))
+            continue
         if not res["finite"]:
             ck.violation(f"C04/nonfinite-result/{brief['pt']}/order{cfg['qcd']}{cfg['qed']}", "operator contains non-finite entries", dict(cfg=cfg, res=res))
             continue
